@@ -220,7 +220,10 @@ func runC06Proc(c *fw.Case) {
 	if cmdKind == 1 {
 		failKind = "GET"
 	}
-	c.Class(fmt.Sprintf("proc %s n=%s fail=%s", names[cmdKind], n, failKind))
+	// `make --print-stats` prints the chunking statistics instead of writing the index file; its exit status still
+	// has to cover the chunks it was asked to store
+	printStats := cmdKind == 2 && c.Bool("proc.printstats")
+	c.Class(fmt.Sprintf("proc %s n=%s fail=%s stats=%v", names[cmdKind], n, failKind, printStats))
 	c.Note("real `desync %s` n=%s chunks=%d, one %s request answered 500 (error-retry 0)", names[cmdKind], n, len(idx.Chunks), failKind)
 	args := func(g *gateServer) []string {
 		switch cmdKind {
@@ -229,6 +232,9 @@ func runC06Proc(c *fw.Case) {
 		case 1:
 			return []string{"cache", "-n", n, "-e", "0", "-s", g.url(), "-c", cacheDir, indexFile}
 		case 2:
+			if printStats {
+				return []string{"make", "--print-stats", "-n", n, "-e", "0", "-m", "1:4:16", "-s", g.url(), indexFile, blobFile}
+			}
 			return []string{"make", "-n", n, "-e", "0", "-m", "1:4:16", "-s", g.url(), indexFile, blobFile}
 		}
 		return []string{"tar", "-i", "-n", n, "-e", "0", "-m", "1:4:16", "-s", g.url(), indexFile, srcTree}
@@ -277,7 +283,7 @@ func runC06Proc(c *fw.Case) {
 				return "stored chunk " + s[:8] + " is not valid"
 			}
 		}
-		if cmdKind >= 2 {
+		if cmdKind >= 2 && !printStats {
 			f, err := os.Open(indexFile)
 			if err != nil {
 				return "no index file was written"
